@@ -456,6 +456,19 @@ def prop_sampling(case, ctx):
     if case["d"]["kind"] in ("dict", "table", "softmax") and len(rd) > 1:
         ks = ctx.call("C11.sample.k_raises", lambda: d.sample(rng=random.Random(case["seed"]), k=case["k"]))
         ctx.check(len(ks) == case["k"] and all(x in positive for x in ks), "C11.sample.k_samples", lambda: f"{ks}")
+    # measures that are not normalised (a scaled distribution, a partial mixture): sampling is relative to the total mass -
+    # one draw or k draws, also with draws at the very top of [0, 1)
+    try:
+        half = d * 0.5
+    except Exception:
+        half = None
+    if half is not None and len(rd) > 1:
+        stream = list(case["stream"]) + [1 - 2 ** -53, 0.999999, 0.75]
+        ks = ctx.call("C11.sample.k_raises", lambda: half.sample(rng=OwnedRandom(stream, tail_seed=case["seed"]), k=len(stream)))
+        ctx.check(len(ks) == len(stream) and all(x in positive for x in ks), "C11.sample.k_samples",
+                  lambda: f"k draws from 0.5 * d (total mass 1/2): {ks}; positive events {positive}")
+        x1 = ctx.call("C11.sample.raises", lambda: half.sample(rng=OwnedRandom([1 - 2 ** -53], tail_seed=case["seed"])))
+        ctx.check(x1 in positive, "C11.sample.positive_probability", lambda: f"draw from 0.5 * d at the top of [0,1): {x1!r}")
     ctx.event("kind=" + case["d"]["kind"])
     ctx.nontrivial(len(positive) >= 2)
 
